@@ -74,7 +74,7 @@ def parse_unit(path):
                 continue
             if block is not None and block[0] == "raw" and not d.split()[0] in (
                     "unit", "prelude", "specs", "from", "take", "stub", "contract", "loop", "hint", "replace", "raw",
-                    "obligation", "canary", "derive_eq", "include", "desugar_enumerate", "mut_self", "block", "replace_macro", "verify_only", "inline_bytestr", "name_wildcards"):
+                    "obligation", "canary", "derive_eq", "include", "desugar_enumerate", "mut_self", "block", "replace_macro", "verify_only", "inline_bytestr", "name_wildcards", "replace_all"):
                 continue
             block = None
             cur_label = None
@@ -128,6 +128,12 @@ def parse_unit(path):
                 if not m:
                     raise BuildError("%s:%d bad replace directive" % (path, ln))
                 u.replaces.append(dict(fn=m.group(1), rule=m.group(2), old=m.group(3), new=m.group(4), line=ln))
+            elif w[0] == "replace_all":
+                # like `replace`, for rewrite rules of an EXPRESSION FORM (not anchors): every occurrence, at least one
+                m = re.match(r"replace_all\s+(\S+)\s+(\S+)\s+`(.*)`\s+=>\s+`(.*)`\s*$", d)
+                if not m:
+                    raise BuildError("%s:%d bad replace_all directive" % (path, ln))
+                u.replaces.append(dict(fn=m.group(1), rule=m.group(2), old=m.group(3), new=m.group(4), line=ln, all=True))
             elif w[0] == "replace_macro":
                 m = re.match(r"replace_macro\s+(\S+)\s+(\S+)\s+(\S+)\s+=>\s+`(.*)`\s*$", d)
                 if not m:
@@ -812,11 +818,11 @@ def transform_fn(u, fnkey, text, em, meta, is_trait_impl=False, nested=False, st
         if rp["fn"] != fnkey:
             continue
         cnt = plain.count(rp["old"])
-        if cnt != 1:
+        if (cnt < 1) if rp.get("all") else (cnt != 1):
             raise BuildError("anchor lost: replace in %s (%s): %r occurs %d times" % (fnkey, rp["rule"], rp["old"],
                                                                                     cnt))
         plain = plain.replace(rp["old"], rp["new"])
-        rules.append("%s `%s` -> `%s`" % (rp["rule"], rp["old"], rp["new"]))
+        rules.append("%s `%s` -> `%s`%s" % (rp["rule"], rp["old"], rp["new"], (" (%d occurrences)" % cnt) if rp.get("all") else ""))
     for mr in getattr(u, "macro_replaces", []):
         if mr["fn"] == fnkey:
             plain = _replace_macro(plain, mr["macro"], mr["new"], mr["rule"], rules)
